@@ -1297,9 +1297,8 @@ class Client(object):
         Args:
             clear: remove key-values pairs from the blackboard
         """
-        for key in itertools.chain(
-            set(self.read), set(self.write), set(self.exclusive)
-        ):
+        # a key may be registered with more than one access level, unregister it once
+        for key in set(self.read) | set(self.write) | set(self.exclusive):
             self.unregister_key(key=key, clear=clear, update_namespace_cache=False)
         self._update_namespaces()
 
@@ -1447,6 +1446,7 @@ class Client(object):
         )  # doesn't throw exceptions if it not present
         super().__getattribute__("write").discard(key)
         super().__getattribute__("exclusive").discard(key)
+        super().__getattribute__("required").discard(key)
         Blackboard.metadata[remapped_key].read.discard(
             super().__getattribute__("unique_identifier")
         )
